@@ -64,6 +64,10 @@ partial def tyOf (j : J) : Option Ty :=
   | .obj [("vec", t)] => (tyOf t).map .vec
   | .obj [("map", t)] => (tyOf t).map .map
   | .obj [("struct", fs)] => (fieldsOf fs).map .struct
+  | .obj [("untagged", .arr ts)] =>
+    ts.foldr (fun t acc => do
+      let rest ← acc
+      (tyOf t).map fun ty => TyList.cons ty rest) (some .nil) |>.map .untagged
   | _ => none
 partial def fieldsOf (j : J) : Option Fields :=
   match j with
@@ -89,6 +93,9 @@ structure EpDesc where
   bodyTy : Option Ty
   bodyCt : Option String
   respTy : Option Ty
+  /-- the response type is outside the `Ty` universe (tagged enums): the model
+  predicts nothing about the body, the specification still validates it -/
+  respOpaque : Bool
   kind : Kind
   hdrTy : Option Fields
 
@@ -115,7 +122,8 @@ def epOf (j : J) : Option EpDesc := do
     | some (.arr xs) => xs.filterMap J.asStr?
     | _ => []
   pure { op := op, pathTy := p, queryTy := q, queryFlat := flat, bodyTy := b,
-         bodyCt := (j.get? "bodyCt").bind J.asStr?, respTy := r, kind := k, hdrTy := h }
+         bodyCt := (j.get? "bodyCt").bind J.asStr?, respTy := r,
+         respOpaque := (j.get? "respOpaque") == some (.bool true), kind := k, hdrTy := h }
 
 /-! ### The document side -/
 
@@ -285,10 +293,12 @@ def handleRq (id variant : String) (ep : EpDesc) (op comps req : J) (status : Na
     let m1 := sortParams (modelParams ep) == sortParams (dps.map fun p => (p.name, p.loc, p.required))
     let expectedCt := match ep.bodyCt with
       | some "form" => some BodyCT.urlEncoded
+      | some "multipart" => some BodyCT.multipart
+      | some "bytes" => some BodyCT.bytes
       | some _ => some BodyCT.json
       | none => none
-    let m2 := (docBody.map (·.1)) == (match expectedCt with | some c => [c.mime] | none => [])
-      && (ep.bodyTy.isSome == ((op.get? "requestBody").isSome))
+    let m2 := (docBody.map (·.1)) == (match expectedCt with | some c => [documentedBodyCT c] | none => [])
+      && (ep.bodyCt.isSome == ((op.get? "requestBody").isSome))
       && (match op.get? "requestBody" with | some rb => (rb.get? "required") == some (.bool true) | none => true)
     let docSucc : List (String × J) := match op.get? "responses" with
       | some (.obj rs) => rs.filter fun (kv : String × J) => kv.1 != "4XX" && kv.1 != "5XX"
@@ -297,7 +307,7 @@ def handleRq (id variant : String) (ep : EpDesc) (op comps req : J) (status : Na
       && (match docSucc with
           | [(_, r)] =>
             (match contentOf (r.get? "content") with
-              | some c => (c.map (·.1)) == (if ep.kind.hasBody && ep.respTy.isSome then ["application/json"] else [])
+              | some c => (c.map (·.1)) == (if ep.kind.hasBody && (ep.respTy.isSome || ep.respOpaque) then ["application/json"] else [])
               | none => false)
           | _ => false)
       && (docResponseFor d op 400).isSome && (docResponseFor d op 500).isSome
@@ -311,7 +321,10 @@ def handleRq (id variant : String) (ep : EpDesc) (op comps req : J) (status : Na
       | none => .ok ()
       | some fs => match extractParamsFlat ep.queryFlat fs queryPairs with | .ok _ => .ok () | .error e => .error e
     let mime := rctype.map mediaType
+    let hasBoundary := ((req.get? "boundary").bind J.asBool?).getD false
     let bodyRes : Except Nat Unit := match ep.bodyTy, ep.bodyCt with
+      | none, some "multipart" => loadMultipart mime hasBoundary
+      | none, some "bytes" => loadBytes mime
       | none, _ => .ok ()
       | some (.struct fs), some "form" =>
         (match loadForm fs mime (pairsOf (rbody.getD (.obj []))) with | .ok _ => .ok () | .error e => .error e)
@@ -375,7 +388,7 @@ def handleRq (id variant : String) (ep : EpDesc) (op comps req : J) (status : Na
           | _ => true
         if !ctOk.1 then ctOk else (hdrsOk, "required-header-missing")
       | _, _ => (false, "status-not-documented")
-    let s1 := if variant == "valid" then (if pre then some is23 else none) else some true
+    let s1 := if variant == "valid" || variant == "ctype-same" then (if pre then some is23 else none) else some true
     let s2 := if variant == "omit" then is4 else true
     let (specS, why) : String × String :=
       match s1 with
@@ -408,7 +421,10 @@ def handleRq (id variant : String) (ep : EpDesc) (op comps req : J) (status : Na
     let known := if specS != "0" then "-" else
       if k3 then "K3" else if k6 then "K6" else if k7 then "K7" else if k8 then "K8" else "-"
     let shape := (if ep.pathTy.isSome then "p" else "") ++ (if ep.queryTy.isSome then "q" else "")
-      ++ (if ep.bodyTy.isSome then "b" else "") ++ (if ep.hdrTy.isSome then "h" else "")
+      ++ (match ep.bodyCt with
+          | some "json" => "b" | some "form" => "bf" | some "multipart" => "bm" | some "bytes" => "by"
+          | _ => "")
+      ++ (if ep.hdrTy.isSome then "h" else "")
     let cls := s!"{variant}-{method}-{if shape.isEmpty then "none" else shape}-{ep.kind.status}-got{status}"
     out id agree specS cls known
       (s!"{ep.op} predicted={predicted}" ++ (if agree then "" else s!" m={b2s m1}{b2s m2}{b2s m3}{b2s m4}{b2s m5req}{b2s m5resp}")
